@@ -132,7 +132,9 @@ func (f *Frame) execInstr(ins ssa.Instruction, st *State, b *ssa.BasicBlock, idx
 		v := f.val(ins.Val, st)
 		f.store(p, v, ins.Val.Type(), st)
 	case *ssa.Call:
+		f.beforeArgs = f.namedArgs(ins.Common(), st)
 		f.atPoint(f.callOrd[ins]+" before", st, b, idx)
+		f.beforeArgs = nil
 		res := f.execCall(ins, ins.Common(), st)
 		f.set(ins, res)
 		f.lastCallResult = &res
@@ -505,7 +507,8 @@ func (f *Frame) execConvert(ins *ssa.Convert, st *State) {
 		u.assume(st, Eq(App("str.len", SInt, r), App("s_len", SInt, x.T)))
 		f.set(ins, Val{T: r})
 	case from == SInt && to == SString:
-		f.set(ins, Val{T: u.freshOf(st, "runestr", ins.Type())})
+		// string(rune): exact for code points (ASCII range is what the repository uses)
+		f.set(ins, Val{T: u.defs.Define("runestr", App("str.from_code", SString, x.T))})
 	default:
 		if from == to {
 			f.set(ins, Val{T: x.T})
@@ -828,4 +831,51 @@ func escapes(v ssa.Value, seen map[ssa.Value]bool) string {
 		}
 	}
 	return ""
+}
+
+// namedArgs exposes the arguments of a call under the callee's parameter names (and $arg0..) for "before" anchors.
+func (f *Frame) namedArgs(c *ssa.CallCommon, st *State) map[string]TV {
+	out := map[string]TV{}
+	args := f.callArgs(c, st)
+	var names []string
+	var tys []types.Type
+	if callee := c.StaticCallee(); callee != nil {
+		names = sigParamNames(callee.Signature, callee, false)
+		if callee.Signature.Recv() != nil {
+			tys = append(tys, callee.Signature.Recv().Type())
+		}
+		for i := 0; i < callee.Signature.Params().Len(); i++ {
+			tys = append(tys, callee.Signature.Params().At(i).Type())
+		}
+	} else if c.IsInvoke() {
+		msig := c.Method.Type().(*types.Signature)
+		names = sigParamNames(msig, nil, true)
+		tys = append(tys, c.Value.Type())
+		for i := 0; i < msig.Params().Len(); i++ {
+			tys = append(tys, msig.Params().At(i).Type())
+		}
+	} else {
+		sig := c.Signature()
+		names = sigParamNames(sig, nil, false)
+		for i := 0; i < sig.Params().Len(); i++ {
+			tys = append(tys, sig.Params().At(i).Type())
+		}
+	}
+	for i, a := range args {
+		if a.T.S == "" {
+			continue
+		}
+		var ty types.Type
+		if i < len(tys) {
+			ty = tys[i]
+		}
+		tv := TV{T: a.T, Ty: ty}
+		out[fmt.Sprintf("$arg%d", i)] = tv
+		if i < len(names) {
+			if _, clash := out[names[i]]; !clash {
+				out[names[i]] = tv
+			}
+		}
+	}
+	return out
 }
